@@ -519,8 +519,11 @@ impl<'ast> Visit<'ast> for LoopFinder {
 }
 
 fn marker(c: &Clause) -> String {
+    if c.kind == "requires" && !c.props.contains("@callsite") {
+        return String::new();
+    }
     match &c.label {
-        Some(l) => format!(" //@L[{}|{}|{}]", l, c.props, c.kind),
+        Some(l) => format!(" //@L[{}|{}|{}]", l, c.props.replace("@callsite", ""), if c.props.contains("@callsite") { "callsite-requires" } else { c.kind.as_str() }),
         None => String::new(),
     }
 }
@@ -821,6 +824,14 @@ fn do_extract(repo: &str, ex: &Extract, probes: bool, probe_ctr: &mut usize) -> 
         text = pass_rename(text, n)?;
     }
     let sha = sha256_hex(src[src_start..src_end].as_bytes());
+    let sigonly = ex.kv.contains_key("sigonly");
+    if sigonly {
+        // contract-only callee: the real signature by span, body dropped, contract ASSUMED here
+        let f = parse_fn(&text)?;
+        let (bs, be) = rng(f.block.span());
+        text = apply_edits(&text, vec![(bs, be, "{ unimplemented!() }".to_string())]);
+        kindname = "signature-only (assumed contract)";
+    }
 
     let (t, n2) = pass_x2(text)?;
     if n2 > 0 {
@@ -830,7 +841,12 @@ fn do_extract(repo: &str, ex: &Extract, probes: bool, probe_ctr: &mut usize) -> 
     if n1 > 0 {
         rewrites.insert("X1", n1);
     }
-    let stateful: Vec<String> = ex.kv.get("stateful").map(|s| s.split(',').map(|x| x.trim().to_string()).filter(|x| !x.is_empty()).collect()).unwrap_or_default();
+    let mut stateful: Vec<String> = ex.kv.get("stateful").map(|s| s.split(',').map(|x| x.trim().to_string()).filter(|x| !x.is_empty()).collect()).unwrap_or_default();
+    if let Some(d) = ex.kv.get("__stateful_default") {
+        if ex.kv.contains_key("world") {
+            stateful.extend(d.split(',').map(|x| x.trim().to_string()).filter(|x| !x.is_empty()));
+        }
+    }
     let world = ex.kv.contains_key("world");
     let t = if world || !stateful.is_empty() {
         let (t, n4) = pass_x4(t, &stateful, world)?;
@@ -840,11 +856,20 @@ fn do_extract(repo: &str, ex: &Extract, probes: bool, probe_ctr: &mut usize) -> 
         t
     };
     let ncl = ex.clauses.len();
-    let t = pass_x3(t, ex, probes, probe_ctr)?;
+    let t = if sigonly {
+        // labels of an assumed contract are not obligations of this unit
+        let ex2 = Extract { kv: ex.kv.clone(), clauses: ex.clauses.iter().filter(|c| c.loop_no.is_none()).map(|c| if c.kind == "requires" { Clause { kind: c.kind.clone(), label: c.label.clone(), props: format!("{}@callsite", c.props), loop_no: None, text: c.text.clone() } } else { Clause { kind: c.kind.clone(), label: None, props: String::new(), loop_no: None, text: c.text.clone() } }).collect(), fnattrs: vec![], tmpl_line: ex.tmpl_line };
+        pass_x3(t, &ex2, false, probe_ctr)?
+    } else {
+        pass_x3(t, ex, probes, probe_ctr)?
+    };
     if ncl > 0 || ex.kv.contains_key("ret") {
         rewrites.insert("X3", ncl);
     }
     let mut out = String::new();
+    if sigonly {
+        out.push_str("#[verifier::external_body]\n");
+    }
     for a in &ex.fnattrs {
         out.push_str(a);
         out.push('\n');
@@ -852,7 +877,8 @@ fn do_extract(repo: &str, ex: &Extract, probes: bool, probe_ctr: &mut usize) -> 
     out.push_str(&t);
     let meta = json!({"id": ex.kv.get("id"), "file": file, "item": item, "kind": kindname, "frag": ex.kv.get("frag"),
         "src_lines": [line_of(&src, src_start), line_of(&src, src_end)], "src_sha256": sha,
-        "rewrites": rewrites, "props": ex.kv.get("props"), "stateful_callees": stateful});
+        "rewrites": rewrites, "props": ex.kv.get("props"), "stateful_callees": stateful, "sigonly": sigonly,
+        "contract_sha256": sha256_hex(ex.clauses.iter().filter(|c| c.loop_no.is_none()).map(|c| format!("{}:{};", c.kind, c.text.trim())).collect::<String>().as_bytes())});
     Ok((out, meta))
 }
 
@@ -913,11 +939,23 @@ fn run() -> Result<(), Fail> {
     let mut cur: Option<Extract> = None;
     let mut probe_ctr = 0usize;
     let mut probe_decl_done = false;
+    let mut stateful_default = String::new();
     for (ln, l) in lines.iter().enumerate() {
         let t = l.trim();
         if let Some(d) = t.strip_prefix("//@") {
+            if let Some(r) = d.strip_prefix("stateful_default ") {
+                if !stateful_default.is_empty() {
+                    stateful_default.push(',');
+                }
+                stateful_default.push_str(r.trim());
+                continue;
+            }
             if let Some(r) = d.strip_prefix("extract ") {
-                cur = Some(Extract { kv: parse_kv(r), clauses: vec![], fnattrs: vec![], tmpl_line: ln + 1 });
+                let mut kv = parse_kv(r);
+                if !stateful_default.is_empty() {
+                    kv.insert("__stateful_default".to_string(), stateful_default.clone());
+                }
+                cur = Some(Extract { kv, clauses: vec![], fnattrs: vec![], tmpl_line: ln + 1 });
                 continue;
             }
             if d.trim() == "end" {
